@@ -18,7 +18,7 @@ class C06(CheckBase):
     level = "fault_enumeration"
     engine = "toolsim"
     rule = ("plan = (tool in {check-express, exppp, exp2cxx, exp2python}, ASan+UBSan build) x (schema: shipped data/*.exp, test/unitary_schemas, kitchen sink, "
-            "seeded generated schemas, synthetic lexical stress [remarks/strings/identifiers of 300..10^5 chars, 21..100-deep scopes/IFs/parentheses/"
+            "seeded generated schemas, seeded algorithm-rich schemas (simlib/exprgen.py: constants, WHERE/DERIVE/UNIQUE clauses, functions, procedures, rules, every statement kind, typed random expressions), synthetic lexical stress [remarks/strings/identifiers of 300..10^5 chars, 21..100-deep scopes/IFs/parentheses/"
             "select and subtype chains]) x (0..2 seeded storage faults: truncate, flip, nul, hibit, token delete/duplicate/swap, stretch, nest, "
             "non-ASCII insert, missing final newline). The first plans are the fault-free sweep tool x valid schema. "
             "non-trivial = the tool started and either the file is valid or a fault changed its bytes; distinct = hash(tool, schema, fault kinds + token class, how the run ended)")
@@ -70,7 +70,16 @@ class C06(CheckBase):
             name, text = self.valid[i // len(TOOLS)]
             return {"property": "C06", "tool": tool, "schema": name, "schema_text": text, "faults": [], "label": "valid", "args": []}
         tool = r.choice(TOOLS)
-        if r.random() < 0.3:
+        c = r.random()
+        if c < 0.2:
+            # algorithm-rich generated schema (functions, procedures, rules, typed random expressions); mostly fault-free:
+            # what is under test is the printer / generator code that has to translate the expressions and statements
+            from simlib import exprgen
+            k = r.randrange(300 if tier == "quick" else 5000)
+            name, label = "algo%d" % k, "generated-algo"
+            text = exprgen.gen_algo_schema(core.rng(seed, "C06", "algo", k), name)
+            fl = [] if r.random() < 0.75 else [faults.gen_express_fault(r)]
+        elif c < 0.45:
             name, text, label = faults.pathological_schema(r)
             fl = [] if r.random() < 0.7 else [faults.gen_express_fault(r)]
         else:
@@ -112,13 +121,15 @@ class C06(CheckBase):
     def plan_features(self, plan):
         f = ["tool:" + plan["tool"], "schema:" + plan["schema"], "label:" + plan["label"]]
         f += ["fault:" + x["kind"] + (":" + x["cls"] if "cls" in x else "") for x in plan["faults"]]
-        if plan["label"].startswith("long-identifier") or any(x["kind"] == "stretch" and x.get("cls") == "keyword" for x in plan["faults"]):
-            f.append("long-identifier")
+        text = faults.apply_all_express(plan["schema_text"], plan["faults"])[0]
+        import re as _re
+        if plan["label"].startswith("long-identifier") or any(x["kind"] == "stretch" and x.get("cls") == "keyword" for x in plan["faults"]) \
+                or any(len(w) > 200 for w in _re.findall(r"[A-Za-z_][A-Za-z0-9_]*", text)):
+            f.append("long-identifier")          # an identifier longer than the tools' small fixed name buffers (240)
         if plan["label"].startswith("long-remark") or any(x["kind"] == "stretch" and x.get("cls") in ("comment", "tail") for x in plan["faults"]):
             f.append("long-remark")
         if plan["label"] not in ("valid", "mutant"):
             f.append("shape:" + plan["label"].rsplit("-", 1)[0])
-        text = faults.apply_all_express(plan["schema_text"], plan["faults"])[0]
         if open_remark_at_eof(text):
             f.append("eof-inside-remark")
         return f
